@@ -121,6 +121,8 @@ impl<'a> ContextType<'a> {
 pub struct FunctionArg {
     ty: String,
     name: String,
+    /// What follows the name in the declarator (function pointers: `)(int32_t)`).
+    suffix: String,
 }
 
 #[derive(Clone)]
@@ -162,7 +164,7 @@ impl Function {
             .chain(
                 self.arguments
                     .iter()
-                    .map(|a| format!("{} {}", a.ty, a.name)),
+                    .map(|a| format!("{} {}{}", a.ty, a.name, a.suffix)),
             ),
             ", ".to_string(),
         )
@@ -330,7 +332,8 @@ struct ArgsParser<'a> {
 }
 
 impl<'a> Iterator for ArgsParser<'a> {
-    type Item = (&'a str, &'a str);
+    /// Type, name, and the rest of the declarator after the name.
+    type Item = (&'a str, &'a str, &'a str);
 
     fn next(&mut self) -> Option<Self::Item> {
         if self.args.is_empty() {
@@ -387,13 +390,25 @@ impl<'a> Iterator for ArgsParser<'a> {
             return None;
         }
 
+        // A function pointer argument carries its name inside the declarator:
+        // `void (*name)(int32_t)`.
+        if let Some(pos) = ret.find("(*") {
+            let inner = &ret[(pos + 2)..];
+            let len = inner.find(')')?;
+            let name = inner[..len].trim();
+
+            if !name.is_empty() && name.chars().all(|c| c.is_alphanumeric() || c == '_') {
+                return Some((ret[..(pos + 2)].trim(), name, inner[len..].trim()));
+            }
+        }
+
         let name = ret.rsplit(&['&', '*', ' '][..]).next()?;
 
-        Some((ret[..(ret.len() - name.len())].trim(), name.trim()))
+        Some((ret[..(ret.len() - name.len())].trim(), name.trim(), ""))
     }
 }
 
-fn parse_arguments(args: &str) -> impl Iterator<Item = (&str, &str)> {
+fn parse_arguments(args: &str) -> impl Iterator<Item = (&str, &str, &str)> {
     ArgsParser { args }
 }
 
@@ -416,10 +431,11 @@ impl Vtable {
                 let args = &cap["args"];
 
                 if !args.is_empty() {
-                    for (ty, name) in parse_arguments(&args[1..]) {
+                    for (ty, name, suffix) in parse_arguments(&args[1..]) {
                         arguments.push(FunctionArg {
                             ty: ty.into(),
                             name: name.into(),
+                            suffix: suffix.into(),
                         });
                     }
                 }
